@@ -134,6 +134,16 @@ def gen_pair(rng, hostile=False):
             lines.append(f"    r = {calls[0]}")
             lines.append(f"    s = {calls[1]}")
             expr = f"r {rng.choice(['+', '^', '&'])} s"
+    # the result of the call assigned back to one of its own plain-variable arguments (a = g(a, b))
+    if not isinstance(ret, list) and rng.random() < 0.35:
+        selfargs = [a for a in actual_lists[0] if a.isidentifier() and env.get(a) == ret]
+        if selfargs:
+            v = rng.choice(selfargs)
+            lines = [f"    {v} = {calls[0]}"]
+            if len(calls) > 1 and rng.random() < 0.5:
+                lines.append(f"    {v} = {name}({', '.join(v if (a.isidentifier() and env.get(a) == ret) else a for a in actual_lists[1])})")
+            expr = v
+            rt = ret
     inline = rng.random() < 0.25
     sig = ", ".join(f"{n}: {ann(t)}" for n, t in cargs)
     src = f"def f({sig}) -> {ann(rt)}:\n"
@@ -168,6 +178,12 @@ def cases(tier, seed):
 
 
 CORPUS = [
+    {"kind": "pair", "callee": "def g(x: Qint[2], y: Qint[2]) -> Qint[2]:\n    return x + y\n", "callee_name": "g",
+     "caller": "def f(a: Qint[2], b: Qint[2]) -> Qint[2]:\n    a = g(a, b)\n    return a\n", "args": [["a", "Qint2"], ["b", "Qint2"]], "ret": "Qint2", "inline": False, "hostile": False},
+    {"kind": "pair", "callee": "def g(x: Qint[2], y: Qint[2]) -> Qint[2]:\n    return x + y\n", "callee_name": "g",
+     "caller": "def f(a: Qint[2], b: Qint[2]) -> Qint[2]:\n    a = g(b, a)\n    a = g(a, a)\n    return a\n", "args": [["a", "Qint2"], ["b", "Qint2"]], "ret": "Qint2", "inline": False, "hostile": False},
+    {"kind": "pair", "callee": "def k(x: Qint[2]) -> Qint[2]:\n    return x + 1\n", "callee_name": "k",
+     "caller": "def f(a: Qint[2], b: Qint[2]) -> Qint[2]:\n    def k(x: Qint[2]) -> Qint[2]:\n        return x + 1\n    b = k(b)\n    return a ^ b\n", "args": [["a", "Qint2"], ["b", "Qint2"]], "ret": "Qint2", "inline": True, "hostile": False},
     {"kind": "pair", "callee": "def g(x: Qint[2], y: Qint[2]) -> Qint[2]:\n    return x - y\n", "callee_name": "g",
      "caller": "def f(g_y: Qint[2], g_x: Qint[2]) -> Qint[2]:\n    return g(g_y, g_x)\n", "args": [["g_y", "Qint2"], ["g_x", "Qint2"]], "ret": "Qint2", "inline": False, "hostile": True},
     {"kind": "pair", "callee": "def g(x: Qint[2]) -> Qint[2]:\n    return x + 1\n", "callee_name": "g",
